@@ -207,13 +207,13 @@ Print Assumptions C19_rank_zero_refuted.
    functions and macros -- loading the snapshot the model writes into an empty session rebuilds the same session (the
    same flavors, the same instances with the same values of their variables, compared as sorted association lists),
    every form of the snapshot loads, and the snapshot of the rebuilt session is the same list of forms. Proof: the three
-   sections of the snapshot in order (constants through C19_snapshot_roundtrip's load_consts; every defflavor form read
-   back by defflavor, defaults through the element-form lemma reloads_in; the variables, where the variable of a flavor
+   sections of the snapshot in order (every defflavor form read back by defflavor, defaults through the element-form
+   lemma reloads_in; constants through C19_snapshot_roundtrip's load_consts; the variables, where the variable of a flavor
    is left as it is by its defvar/setq pair and a value holding instances evaluates back by value_reloads in the
    environment that by then knows every flavor), then a permutation. sess_ok_f is sess_ok_x (C19_flavor_guard_inside)
-   tightened in five places where the statement is FALSE of the model inside sess_ok_x; each has its witness in
-   C19_flavor_session_refuted: a constant holding an instance (constants are written before the flavors; reachable by
-   a history: C19_constant_instance_history_refuted), a documentation string on the variable of a flavor (defflavor
+   tightened in four places where the statement is FALSE of the model inside sess_ok_x; each has its witness in
+   C19_flavor_session_refuted; and it keeps constants free of instances, which since repo_fixes/C19-33 (constants after
+   the flavors; C19_constant_instance_history_restored) is a restriction of this proof only. The four: a documentation string on the variable of a flavor (defflavor
    sets none), instance variables out of name order, a blanket option on a flavor without instance variables (two
    states no defflavor builds), and a flavor OBJECT inside another value that differs from the session's flavor of
    that name. For the last one the new guard leaves out every flavor object inside another value (snap_safe instead of
@@ -250,18 +250,27 @@ Theorem C19_flavor_guard_nonvacuous :
   /\ List.length (s_vars s) = 5 /\ List.length (snapshot s) = 10.
 Proof. exact ex_flavor_history2_ok. Qed.
 Print Assumptions C19_flavor_guard_nonvacuous.
-(* where sess_ok_x is too wide for the statement: five states with unique names inside sess_ok_x, outside sess_ok_f,
+(* where sess_ok_x is too wide for the statement: four states with unique names inside sess_ok_x, outside sess_ok_f,
    whose snapshot does not rebuild them (the decidable specification is false and the reloaded session differs) *)
 Theorem C19_flavor_session_refuted :
   forallb (fun s => keys_nodup_b s && sess_ok_x s && negb (sess_ok_f s) && negb (meets_spec s)
                     && negb (session_eqb (canon (reload_session s)) (canon s)))
-          [wit_const_inst; wit_flavor_doc; wit_unsorted; wit_empty_option; wit_stale_flavor] = true.
+          [wit_flavor_doc; wit_unsorted; wit_empty_option; wit_stale_flavor] = true.
 Proof. exact flavor_session_refuted. Qed.
 Print Assumptions C19_flavor_session_refuted.
-Theorem C19_constant_instance_history_refuted :
+(* a constant whose value is a flavor instance (the former fifth witness, fixed finding C19-constant-holding-instance,
+   repo_fixes/C19-33: the constants section is written after the flavors section): the history builds the state, the state
+   is inside the per-run guard, its snapshot writes the defflavor before the defconstant, every form loads, the reloaded
+   session and its snapshot are the same. The theorem C19_flavor_session_roundtrip does not cover constants holding
+   instances (sess_ok_f): for them the round trip is evaluated per run (enumerated block + random sessions). *)
+Theorem C19_constant_instance_history_restored :
   run empty_session
     [ L [Sym "defflavor"; Sym "blk"; L [Sym "sa"; L [Sym "sb"; Fix 2]]; Nil; Sym ":gettable-instance-variables";
          Sym ":settable-instance-variables"; Sym ":inittable-instance-variables"];
-      L [Sym "defconstant"; Sym "+ci+"; L [Sym "make-instance"; quote (Sym "blk"); Sym ":sa"; Fix 1]] ] = Ok wit_const_inst.
-Proof. exact const_inst_history_refuted. Qed.
-Print Assumptions C19_constant_instance_history_refuted.
+      L [Sym "defconstant"; Sym "+ci+"; L [Sym "make-instance"; quote (Sym "blk"); Sym ":sa"; Fix 1]] ] = Ok wit_const_inst
+  /\ keys_nodup_b wit_const_inst = true /\ sess_ok_x wit_const_inst = true /\ meets_spec wit_const_inst = true
+  /\ session_eqb (canon (reload_session wit_const_inst)) (canon wit_const_inst) = true
+  /\ (match snapshot wit_const_inst with
+      | L (Sym "defflavor" :: _) :: L (Sym "defconstant" :: _) :: _ => true | _ => false end) = true.
+Proof. exact const_inst_history_restored. Qed.
+Print Assumptions C19_constant_instance_history_restored.
